@@ -1,5 +1,6 @@
 (* C08 — malformed requests are answered with FORMERR; the first problem wins. *)
-From QV Require Import Base.ListX Model.NameWire Model.Reader Model.RdataLite Model.Server Proofs.ReaderP Proofs.ServerP.
+From QV Require Import Base.ListX Model.NameWire Model.Reader Model.RdataLite Model.Server Proofs.ReaderP Proofs.ServerP
+  Spec.NameWireS Spec.ReaderS Spec.MsgWalkS Proofs.MsgWalkP Proofs.MsgWalkRecP Proofs.MsgWalkTopP.
 
 (* Whatever the pre-processing decides is final: nothing later replaces its RCODE, and the
    response carries no answer/authority/additional data and has AA clear. *)
@@ -53,6 +54,91 @@ Example c08_trailing_octet :
   exists w, prescan (fun _ _ _ _ _ _ => VOk) cfg req = Ok (PEarly w) /\ w_rcode w = RC_FORMERR.
 Proof. cbv zeta. eexists. split; [vm_compute; reflexivity|reflexivity]. Qed.
 
+(* ---- the spec-level classifier ---------------------------------------------------------------------
+   [first_problem : bytes -> verdict] (Spec/MsgWalkS.v) is an independent reading of the request in
+   message order, built only on the SPEC decoders (spec_decode_name, sbe16/sbe32, "delimit a record" =
+   first label sequence + 10 fixed octets + RDLENGTH in bounds, RFC 6891 option tiling, RFC 8945 TSIG
+   RDATA layout): VSilent | VFormerr problem | VBadVers i | VTsig i then_ | VClean, the problem being
+   QuestionUnparseable, RecordUndelimitable i, PseudoOutsideAdditional i, SecondOpt i, OptMalformed i,
+   TsigNotLast i, TsigMalformed i (incl. wrong class / TTL), QueryWithoutQuestion or TrailingOctets.
+   [formerr_resp w]: RCODE 1, no extended-RCODE bits, no TSIG.  [badvers_resp w]: RCODE 0 with upper
+   bits 1 (extended RCODE 16) in an EDNS response.  [tsig_resp w]: carries a TSIG (or TC because the
+   TSIG did not fit): key lookup and HMAC verification, parameters here, decided (C10/C11). *)
+
+(* The pre-processing of the model decides EXACTLY what the classifier says, for every request. *)
+Theorem c08_first_problem : forall verify cfg req p, wf_cfg cfg -> wf_bytes req ->
+  prescan verify cfg req = Ok p ->
+  match first_problem req with
+  | VSilent => p = PNone
+  | VFormerr QueryWithoutQuestion =>
+    exists w, p = PClean OPCODE_QUERY w /\ w_question w = None /\ w_rcode w = 0%N /\ w_tsig w = None
+  | VFormerr _ => exists w, p = PEarly w /\ formerr_resp w
+  | VBadVers _ => exists w, p = PEarly w /\ badvers_resp w
+  | VTsig _ t =>
+    (exists w, p = PEarly w /\ tsig_resp w) \/
+    match t with
+    | Some TrailingOctets => False
+    | Some _ => exists w, p = PClean OPCODE_QUERY w /\ w_question w = None /\ w_tsig w <> None
+    | None => exists o w, p = PClean o w /\ w_tsig w <> None /\ w_rcode w = 0%N /\ (o = OPCODE_QUERY -> w_question w <> None)
+    end
+  | VClean => exists o w, p = PClean o w /\ w_rcode w = 0%N /\ w_tsig w = None /\ (o = OPCODE_QUERY -> w_question w <> None)
+  end.
+Proof. exact prescan_first_problem. Qed.
+
+(* FORMERR iff: unless a well-formed last TSIG record is reached before any problem (then key lookup and
+   HMAC verification decide), the pre-processing ends in FORMERR — an early FORMERR response, or a QUERY
+   handed to handle_query without a question — exactly when the first problem in message order is a
+   FORMERR-class one; in particular an EDNS version error found earlier (VBadVers) is reported instead,
+   and a request without any problem (VClean) is never FORMERR here. *)
+Theorem c08_formerr_iff_first_problem : forall verify cfg req p, wf_cfg cfg -> wf_bytes req ->
+  prescan verify cfg req = Ok p -> (forall i t, first_problem req <> VTsig i t) ->
+  (prescan_formerr p <-> exists pr, first_problem req = VFormerr pr).
+Proof. exact formerr_iff_first_problem. Qed.
+
+(* what is sent: FORMERR with no data, whatever query answering would have said *)
+Theorem c08_formerr_response : forall answer verify cfg req pr w, wf_cfg cfg -> wf_bytes req ->
+  first_problem req = VFormerr pr -> handle_message answer verify cfg req = Ok (Some w) ->
+  w_rcode w = RC_FORMERR /\ no_data w /\ w_tsig w = None /\ upper0 w.
+Proof. exact formerr_response. Qed.
+
+Theorem c08_badvers_response : forall answer verify cfg req i w, wf_cfg cfg -> wf_bytes req ->
+  first_problem req = VBadVers i -> handle_message answer verify cfg req = Ok (Some w) ->
+  badvers_resp w /\ no_data w.
+Proof. exact badvers_response. Qed.
+
+Theorem c08_clean_reaches_dispatch : forall verify cfg req, wf_cfg cfg -> wf_bytes req -> first_problem req = VClean ->
+  exists o w, prescan verify cfg req = Ok (PClean o w) /\ w_rcode w = 0%N /\ w_tsig w = None /\
+              (o = OPCODE_QUERY -> w_question w <> None).
+Proof. exact clean_reaches_dispatch. Qed.
+
+Theorem c08_silent_iff_first_problem : forall answer verify cfg req, wf_cfg cfg -> wf_bytes req ->
+  (handle_message answer verify cfg req = Ok None <-> first_problem req = VSilent).
+Proof. exact silent_iff_first_problem. Qed.
+
+(* Non-vacuity of the classifier: every verdict and every problem is produced by a concrete request.
+   Header: id 1234, flags 0100, counts; question = root IN A. *)
+Example c08_classifier_examples :
+  let hdr qd an ns ar := [18;52; 1;0; 0;N.of_nat qd; 0;N.of_nat an; 0;N.of_nat ns; 0;N.of_nat ar]%N in
+  let q := [0; 0;1; 0;1]%N in
+  let opt ver := [0; 0;41; 4;208; 0;N.of_nat ver;0;0; 0;0]%N in
+  let a := [0; 0;1; 0;1; 0;0;0;60; 0;4; 1;2;3;4]%N in
+  let tsig cl := [1;107;0; 0;250; 0;N.of_nat cl; 0;0;0;0; 0;29;
+                  11;104;109;97;99;45;115;104;97;50;53;54;0; 0;0;0;0;0;0; 1;44; 0;0; 18;52; 0;0; 0;0]%N in
+  first_problem (hdr 1 0 0 0 ++ q) = VClean /\
+  first_problem (hdr 1 0 0 0 ++ [3;97]%N) = VFormerr QuestionUnparseable /\
+  first_problem (hdr 1 1 0 0 ++ q ++ [0; 0;1; 0;1; 0;0;0;60; 0;9; 1]%N) = VFormerr (RecordUndelimitable 0) /\
+  first_problem (hdr 1 0 1 0 ++ q ++ opt 0) = VFormerr (PseudoOutsideAdditional 0) /\
+  first_problem (hdr 1 0 0 3 ++ q ++ a ++ opt 0 ++ opt 0) = VFormerr (SecondOpt 2) /\
+  first_problem (hdr 1 0 0 1 ++ q ++ [1;120;0; 0;41; 4;208; 0;0;0;0; 0;0]%N) = VFormerr (OptMalformed 0) /\
+  first_problem (hdr 1 0 0 2 ++ q ++ a ++ opt 1) = VBadVers 1 /\
+  first_problem (hdr 1 0 0 2 ++ q ++ tsig 255 ++ a) = VFormerr (TsigNotLast 0) /\
+  first_problem (hdr 1 0 0 1 ++ q ++ tsig 1) = VFormerr (TsigMalformed 0) /\
+  first_problem (hdr 1 0 0 2 ++ q ++ opt 0 ++ tsig 255) = VTsig 1 None /\
+  first_problem (hdr 0 0 0 0) = VFormerr QueryWithoutQuestion /\
+  first_problem (hdr 1 0 0 0 ++ q ++ [0]%N) = VFormerr TrailingOctets /\
+  first_problem (hdr 2 0 0 0 ++ q ++ q) = VSilent.
+Proof. cbv zeta. repeat split; vm_compute; reflexivity. Qed.
+
 Print Assumptions c08_early_is_final.
 Print Assumptions c08_undelimitable_additional.
 Print Assumptions c08_second_opt.
@@ -60,3 +146,9 @@ Print Assumptions c08_tsig_not_last.
 Print Assumptions c08_an_ns.
 Print Assumptions c08_query_without_question.
 Print Assumptions c08_data_only_if_clean.
+Print Assumptions c08_first_problem.
+Print Assumptions c08_formerr_iff_first_problem.
+Print Assumptions c08_formerr_response.
+Print Assumptions c08_badvers_response.
+Print Assumptions c08_clean_reaches_dispatch.
+Print Assumptions c08_silent_iff_first_problem.
